@@ -51,7 +51,7 @@ Definition dec_inp (l : list Z) : option inp :=
           match dec_reqs (Z.to_nat nq) r2 with
           | Some (qs, nse :: np :: r3) =>
               match dec_pns (Z.to_nat np) r3 with
-              | Some (ks, [cok; cv; cs]) =>
+              | Some (ks, [cok; cv; cs; _]) =>   (* last: the device request the first container already carries; the result does not depend on it *)
                   Some {| i_inject := dec_bool inj; i_trunk := dec_bool tr; i_crd := dec_bool crd; i_hostnet := dec_bool hn;
                           i_ncont := nc; i_ignored := dec_bool ig; i_use_eni := dec_bool ue; i_fixed_name := dec_bool fn;
                           i_daemonset := dec_bool ds; i_prev_zone := pz; i_prev_err := dec_bool pe;
